@@ -946,6 +946,10 @@ theorem LInv.nodup {a : A} {hist : List (HEv ℚ)} (h : LInv flow a hist) : a.ke
 theorem LInv.recv_nonneg {a : A} {hist : List (HEv ℚ)} (h : LInv flow a hist) : 0 ≤ a.recv := by
   rw [h.recv]; exact Int.natCast_nonneg _
 
+theorem LInv.congr {a a' : A} {hist : List (HEv ℚ)} (h : LInv flow a hist) (hk : a'.keys = a.keys) (hr : a'.recv = a.recv)
+    (hh : a'.hol = a.hol) (hf : a'.forf = a.forf) : LInv flow a' hist :=
+  ⟨hk ▸ h.keys, hr ▸ h.recv, hh ▸ h.park, hf ▸ h.forf⟩
+
 theorem lst_nil (a : A) (H : List (HEv ℚ)) (t : ℚ) (pc : DRR.Pc) :
     lst cfg flow size a H ⟨a.dfc, []⟩ t pc = mst cfg.flows flow size a H t pc .running := by
   simp only [lst, List.append_nil]
@@ -1641,5 +1645,172 @@ theorem lts_burst_end {a a' : A} {hist new : List (HEv ℚ)} {en : Entry} (hi : 
           show r.a.forf c = 0
           rw [hfinA]
           exact hl1.forf c hc
+
+theorem txTime_eq (id : Int) : MQ.txTime (DRR.sched cfg) (pktOf flow size id) = DRROnK.txTime size cfg.rate id := rfl
+
+theorem hist_quiet (hist : List (HEv ℚ)) (ev : HEv ℚ) (h1 : ∀ c t, ev ≠ .visit c t) (h2 : ∀ id t, ev ≠ .done id t)
+    (h3 : ∀ c t, ev ≠ .reset c t) (h4 : ∀ id t, ev ≠ .park id t) :
+    visitsOf (hist ++ [ev]) = visitsOf hist ∧ sentOf flow size (hist ++ [ev]) = sentOf flow size hist ∧
+    forfKeys (hist ++ [ev]) = forfKeys hist ∧ parkKeys flow (hist ++ [ev]) = parkKeys flow hist := by
+  rw [visitsOf_snoc, sentOf_snoc, forfKeys_snoc, parkKeys_snoc]
+  cases ev with
+  | visit c t => exact absurd rfl (h1 c t)
+  | done id t => exact absurd rfl (h2 id t)
+  | reset c t => exact absurd rfl (h3 c t)
+  | park id t => exact absurd rfl (h4 id t)
+  | put id t => exact ⟨rfl, rfl, rfl, rfl⟩
+  | serve id t => exact ⟨rfl, rfl, rfl, rfl⟩
+  | out id t => exact ⟨rfl, rfl, rfl, rfl⟩
+  | idle t => exact ⟨rfl, rfl, rfl, rfl⟩
+
+/-- **every configuration step is accepted by the LTS**, and keeps what the observations say of the configuration -/
+theorem lts_step {a a' : A} {hist new : List (HEv ℚ)} (hi : AInv flow F size cfg Lmax P a q.time) (hmin : IsMin a q)
+    (hl : LInv flow a hist) (hs : AStep F flow size cfg P n e a q a' new) :
+    LtsOK flow size cfg Lmax a hist q.time a' new ∧ LInv flow a' (hist ++ new) := by
+  have hrun := hi.run
+  have ht := hi.table
+  have hn := hl.nodup
+  have hfn := flows_nodup ht
+  cases hs with
+  | burstGet en r m' c' id' is hst hb hfin hc' hit =>
+    exact lts_burst_end (n := n) (e := e) hi hl hst r hb (Or.inl ⟨m', c', id', is, hfin, hc', hit, rfl, rfl⟩)
+  | burstSend en r m' c' id' pk hst hb hfin =>
+    exact lts_burst_end (n := n) (e := e) hi hl hst r hb (Or.inr (Or.inl ⟨m', c', id', pk, hfin, rfl, rfl⟩))
+  | burstBlock en r hst hb hfin htk =>
+    exact lts_burst_end (n := n) (e := e) hi hl hst r hb (Or.inr (Or.inr (Or.inl ⟨hfin, htk, rfl, rfl⟩)))
+  | burstTok en r k hst hb hfin htk =>
+    exact lts_burst_end (n := n) (e := e) hi hl hst r hb (Or.inr (Or.inr (Or.inr ⟨k, hfin, htk, rfl, rfl⟩)))
+  | sendInit p m id h =>
+    refine ⟨ltsOK_one .sendInit (.started (pktOf flow size id) (q.time + DRROnK.txTime size cfg.rate id)) (fun _ hp => by cases hp)
+      ?_ rfl rfl, by rw [List.append_nil]; exact hl.congr rfl rfl rfl rfl⟩
+    rw [h] at hrun
+    have hph : (toM cfg.flows flow size a hist q.time).phase = .spawned (pktOf flow size id) := by simp [toM, mst, phaseOf, h]
+    simp only [MQ.step, hph, txTime_eq]
+    simp only [toM, mst, ctlOf, pcOf, phaseOf, h, Option.map_some, List.append_nil, hrun.2.2.1]
+  | sendFire p t m id h =>
+    rw [h] at hrun
+    obtain ⟨-, hcur, hpk, -⟩ := hrun
+    have hfid := hpk.1
+    have hheld : a.run.held = some id := by simp [h, RPhase.held]
+    have hk : flow id ∈ a.keys := by
+      by_contra hk
+      have h1 := (hi.keysOK.2 _ hfid hk).2.1
+      have h2 := hi.cntOK _ hfid
+      rw [heldCnt_some hheld, if_pos rfl] at h2
+      have h5 : 0 ≤ holCnt a (flow id) := by unfold holCnt; split <;> omega
+      omega
+    have hkf : flow id ∈ cfg.flows := (mem_flows ht _).mpr hfid
+    have hqv := hist_quiet (flow := flow) (size := size) hist (.out id q.time) (fun _ _ h => nomatch h) (fun _ _ h => nomatch h)
+      (fun _ _ h => nomatch h) (fun _ _ h => nomatch h)
+    refine ⟨ltsOK_one .sendFire (.depart (pktOf flow size id)) (fun _ hp => by cases hp) ?_ rfl rfl, ?_⟩
+    · have hph : (toM cfg.flows flow size a hist q.time).phase = .sending (pktOf flow size id) q.time := by simp [toM, mst, phaseOf, h]
+      have hnow : (toM cfg.flows flow size a hist q.time).now = q.time := rfl
+      simp only [MQ.step, hph, hnow, lt_irrefl, if_false, countOut]
+      simp only [toM, mst, ctlOf, pcOf, phaseOf, h, pktOf, bump_dictOf _ hn _ _ _ (fun h0 => absurd hk h0), addKey_of_mem _ _ hk,
+        bump_dictOf _ hfn _ _ _ (fun h0 => absurd hkf h0), addKey_of_mem _ _ hkf, Option.map_none, hqv.1, hqv.2.1, hqv.2.2.1, hqv.2.2.2]
+    · refine ⟨?_, ?_, ?_, ?_⟩
+      · show a.keys = _; rw [putIds_append]; simpa [putIds] using hl.keys
+      · show a.recv = _; rw [putIds_append]; simpa [putIds] using hl.recv
+      · intro c hc; exact mem_parkKeys_append flow hist _ (hl.park c hc)
+      · intro c hc; rw [hqv.2.2.1] at hc; exact hl.forf c hc
+  | srcInit arr h => exact ⟨ltsOK_nothing (by simp only [List.append_nil]; rfl), by rw [List.append_nil]; exact hl.congr rfl rfl rfl rfl⟩
+  | srcPutTok id arr h htot =>
+    have hs := hi.src
+    rw [h] at hs
+    obtain ⟨hqp, hpk, -⟩ := hs
+    have hfid := hpk.1
+    have hkf : flow id ∈ cfg.flows := (mem_flows ht _).mpr hfid
+    have hst : storeOf (dictOf a.keys fun f => (a.items f).map (pktOf flow size)) (flow id) = (a.items (flow id)).map (pktOf flow size) :=
+      storeOf_dictOf _ _ _ (fun hk => by rw [(hi.keysOK.2 _ hfid hk).1]; rfl)
+    have h0b : flow id ∉ a.keys → a.byt (flow id) = 0 := fun hk => (hi.keysOK.2 _ hfid hk).2.2
+    have hrc : (a.recv + 1).toNat = a.recv.toNat + 1 := by have := hl.recv_nonneg; omega
+    have hqv := hist_quiet (flow := flow) (size := size) hist (.put id q.time) (fun _ _ h => nomatch h) (fun _ _ h => nomatch h)
+      (fun _ _ h => nomatch h) (fun _ _ h => nomatch h)
+    have hactOk : DRR.ActOk (Lmax : ℚ) (.put (pktOf flow size id)) := by
+      intro p hp
+      cases hp
+      exact_mod_cast hpk.2
+    refine ⟨ltsOK_one (.put (pktOf flow size id)) .accepted hactOk ?_ rfl rfl, ?_⟩
+    · have htt : MQ.total (toM cfg.flows flow size a hist q.time).queueCount = 0 := by
+        simp only [toM, mst]; rw [total_flows ht]; exact htot
+      have hon : (DRR.sched cfg).onPut (toM cfg.flows flow size a hist q.time).ctl (flow id) (pktOf flow size id) =
+          .ok { (toM cfg.flows flow size a hist q.time).ctl with
+            classCount := setKey (toM cfg.flows flow size a hist q.time).ctl.classCount (flow id) (a.ccnt (flow id) + 1) } := by
+        simp only [DRR.sched, DRR.onPut, toM, mst, ctlOf, lookup_flows ht _ hfid]
+      have hcl : (DRR.sched cfg).classOf (pktOf flow size id).flow = some (flow id) := classOf_id ht _
+      simp only [MQ.step, MQ.doPut, hcl, hon]
+      have htt' : MQ.total ({ toM cfg.flows flow size a hist q.time with
+          ctl := { (toM cfg.flows flow size a hist q.time).ctl with
+            classCount := setKey (toM cfg.flows flow size a hist q.time).ctl.classCount (flow id) (a.ccnt (flow id) + 1) } } :
+          MQState ℚ (DRR.Ctl ℚ)).queueCount = 0 := htt
+      simp only [postToken, htt', if_true, countIn, enqueue]
+      simp only [toM, mst, ctlOf, pktOf, hst, setKey_dictOf _ hn, bump_dictOf _ hfn _ _ _ (fun h0 => absurd hkf h0), addKey_of_mem _ _ hkf,
+        bump_dictOf _ hn _ _ _ h0b, hrc, setKey_flows ht _ hfid, hqv.1, hqv.2.1, hqv.2.2.1, hqv.2.2.2]
+      congr 3
+      rw [← upd_map]
+      simp [pktOf]
+    · refine ⟨?_, ?_, ?_, ?_⟩
+      · show addKey a.keys _ = _
+        rw [putIds_append, hl.keys]
+        simp only [putIds]
+        rw [keysOf_append]
+      · show a.recv + 1 = _
+        rw [putIds_append, hl.recv]
+        simp [putIds]
+      · intro c hc; exact mem_parkKeys_append flow hist _ (hl.park c hc)
+      · intro c hc; rw [hqv.2.2.1] at hc; exact hl.forf c hc
+  | srcPutPlain id arr h htot =>
+    have hs := hi.src
+    rw [h] at hs
+    obtain ⟨hqp, hpk, -⟩ := hs
+    have hfid := hpk.1
+    have hkf : flow id ∈ cfg.flows := (mem_flows ht _).mpr hfid
+    have hst : storeOf (dictOf a.keys fun f => (a.items f).map (pktOf flow size)) (flow id) = (a.items (flow id)).map (pktOf flow size) :=
+      storeOf_dictOf _ _ _ (fun hk => by rw [(hi.keysOK.2 _ hfid hk).1]; rfl)
+    have h0b : flow id ∉ a.keys → a.byt (flow id) = 0 := fun hk => (hi.keysOK.2 _ hfid hk).2.2
+    have hrc : (a.recv + 1).toNat = a.recv.toNat + 1 := by have := hl.recv_nonneg; omega
+    have hqv := hist_quiet (flow := flow) (size := size) hist (.put id q.time) (fun _ _ h => nomatch h) (fun _ _ h => nomatch h)
+      (fun _ _ h => nomatch h) (fun _ _ h => nomatch h)
+    have hactOk : DRR.ActOk (Lmax : ℚ) (.put (pktOf flow size id)) := by
+      intro p hp
+      cases hp
+      exact_mod_cast hpk.2
+    refine ⟨ltsOK_one (.put (pktOf flow size id)) .accepted hactOk ?_ rfl rfl, ?_⟩
+    · have htt : ¬ MQ.total (toM cfg.flows flow size a hist q.time).queueCount = 0 := by
+        simp only [toM, mst]; rw [total_flows ht]; exact htot
+      have hon : (DRR.sched cfg).onPut (toM cfg.flows flow size a hist q.time).ctl (flow id) (pktOf flow size id) =
+          .ok { (toM cfg.flows flow size a hist q.time).ctl with
+            classCount := setKey (toM cfg.flows flow size a hist q.time).ctl.classCount (flow id) (a.ccnt (flow id) + 1) } := by
+        simp only [DRR.sched, DRR.onPut, toM, mst, ctlOf, lookup_flows ht _ hfid]
+      have hcl : (DRR.sched cfg).classOf (pktOf flow size id).flow = some (flow id) := classOf_id ht _
+      simp only [MQ.step, MQ.doPut, hcl, hon]
+      have htt' : ¬ MQ.total ({ toM cfg.flows flow size a hist q.time with
+          ctl := { (toM cfg.flows flow size a hist q.time).ctl with
+            classCount := setKey (toM cfg.flows flow size a hist q.time).ctl.classCount (flow id) (a.ccnt (flow id) + 1) } } :
+          MQState ℚ (DRR.Ctl ℚ)).queueCount = 0 := htt
+      simp only [postToken, htt', if_false, countIn, enqueue]
+      simp only [toM, mst, ctlOf, pktOf, hst, setKey_dictOf _ hn, bump_dictOf _ hfn _ _ _ (fun h0 => absurd hkf h0), addKey_of_mem _ _ hkf,
+        bump_dictOf _ hn _ _ _ h0b, hrc, setKey_flows ht _ hfid, hqv.1, hqv.2.1, hqv.2.2.1, hqv.2.2.2]
+      congr 3
+      rw [← upd_map]
+      simp [pktOf]
+    · refine ⟨?_, ?_, ?_, ?_⟩
+      · show addKey a.keys _ = _
+        rw [putIds_append, hl.keys]
+        simp only [putIds]
+        rw [keysOf_append]
+      · show a.recv + 1 = _
+        rw [putIds_append, hl.recv]
+        simp [putIds]
+      · intro c hc; exact mem_parkKeys_append flow hist _ (hl.park c hc)
+      · intro c hc; rw [hqv.2.2.1] at hc; exact hl.forf c hc
+  | srcEnd h => exact ⟨ltsOK_nothing (by simp only [List.append_nil]; rfl), by rw [List.append_nil]; exact hl.congr rfl rfl rfl rfl⟩
+  | pendNoop r l1 l2 hpe hno => exact ⟨ltsOK_nothing (by simp only [List.append_nil]; rfl), by rw [List.append_nil]; exact hl.congr rfl rfl rfl rfl⟩
+  | pendHand g t l1 l2 hpe h htk =>
+    refine ⟨ltsOK_one .tokenHandoff .nothing (fun _ hp => by cases hp) ?_ rfl rfl, by rw [List.append_nil]; exact hl.congr rfl rfl rfl rfl⟩
+    have hph : (toM cfg.flows flow size a hist q.time).phase = .waitToken := by simp [toM, mst, phaseOf, h]
+    have htk' : (toM cfg.flows flow size a hist q.time).tokens = t + 1 := htk
+    simp only [MQ.step, hph, htk']
+    simp only [toM, mst, ctlOf, pcOf, phaseOf, h, List.append_nil]
 
 end DRRK
